@@ -198,3 +198,6 @@ package bscript
 //@ smt (declare-fun insc_ok (Ref) Bool)
 //@ func bscript.(*Script).IsP2PKHInscription
 //@   define (= result (insc_ok s))
+// what counts as a data-carrier output for the size split (C11): the same definition as under C14
+//@ func bscript.(*Script).IsData
+//@   ensures[C11.is_data] (= result (spec.is_data (deref s)))
